@@ -109,7 +109,9 @@ class HippoClientProtocol(asyncio.DatagramProtocol):
                 self.session.message_handler.handle(message)
         except:
             LOG.exception("Failed in region message handler")
-        region.message_handler.handle(message)
+        # Resends of reliable messages we already handled shouldn't be handled again
+        if should_handle:
+            region.message_handler.handle(message)
 
 
 class HippoClientRegion(BaseClientRegion):
